@@ -1,0 +1,77 @@
+//go:build verif
+
+package dbft
+
+import "time"
+
+// VerifInbox is a copy of one per-height inbox of the future-message cache.
+type VerifInbox[H Hash] struct {
+	Prepare   map[uint16]ConsensusPayload[H]
+	ChViews   map[uint16]ConsensusPayload[H]
+	PreCommit map[uint16]ConsensusPayload[H]
+	Commit    map[uint16]ConsensusPayload[H]
+}
+
+// VerifSnapshot is a read-only copy of the unexported DBFT state that the
+// verification harness observes. It is compiled in only with the `verif` tag.
+type VerifSnapshot[H Hash] struct {
+	BlockProcessed     bool
+	PreBlockProcessed  bool
+	TxSubscriptionOn   bool
+	Recovering         bool
+	HeaderBuilt        bool
+	PreHeaderBuilt     bool
+	BlockBuilt         bool
+	PreBlockBuilt      bool
+	LastBlockTimestamp uint64
+	LastBlockTime      time.Time
+	LastBlockIndex     uint32
+	LastBlockView      byte
+	TimePerBlock       time.Duration
+	MaxTimePerBlock    time.Duration
+	PrepareSentTime    time.Time
+	RttAvg             time.Duration
+	RttIdx             int
+	Cache              map[uint32]VerifInbox[H]
+}
+
+func verifCopyMap[H Hash](m map[uint16]ConsensusPayload[H]) map[uint16]ConsensusPayload[H] {
+	r := make(map[uint16]ConsensusPayload[H], len(m))
+	for k, v := range m {
+		r[k] = v
+	}
+	return r
+}
+
+// VerifSnapshot returns a copy of the unexported state. It changes nothing.
+func (d *DBFT[H]) VerifSnapshot() VerifSnapshot[H] {
+	s := VerifSnapshot[H]{
+		BlockProcessed:     d.blockProcessed,
+		PreBlockProcessed:  d.preBlockProcessed,
+		TxSubscriptionOn:   d.txSubscriptionOn,
+		Recovering:         d.recovering,
+		HeaderBuilt:        d.header != nil,
+		PreHeaderBuilt:     d.preHeader != nil,
+		BlockBuilt:         d.block != nil,
+		PreBlockBuilt:      d.preBlock != nil,
+		LastBlockTimestamp: d.lastBlockTimestamp,
+		LastBlockTime:      d.lastBlockTime,
+		LastBlockIndex:     d.lastBlockIndex,
+		LastBlockView:      d.lastBlockView,
+		TimePerBlock:       d.timePerBlock,
+		MaxTimePerBlock:    d.maxTimePerBlock,
+		PrepareSentTime:    d.prepareSentTime,
+		RttAvg:             d.rttEstimates.avg,
+		RttIdx:             d.rttEstimates.idx,
+		Cache:              make(map[uint32]VerifInbox[H], len(d.cache.mail)),
+	}
+	for h, in := range d.cache.mail {
+		s.Cache[h] = VerifInbox[H]{
+			Prepare:   verifCopyMap(in.prepare),
+			ChViews:   verifCopyMap(in.chViews),
+			PreCommit: verifCopyMap(in.preCommit),
+			Commit:    verifCopyMap(in.commit),
+		}
+	}
+	return s
+}
